@@ -22,18 +22,37 @@ Record row := mkRow {
   r_ret : option string;        (* None = SQL NULL *)
   r_yield : option string }.
 
+(* Binary text equality.  Written with `if` (not `&&` / `||`): vm_compute evaluates the arguments of a function such
+   as andb / orb eagerly, so String.eqb always walks the whole shorter string and `existsb` the whole list; the
+   comparisons below stop at the first difference / first hit, which is what makes thousand-row tables cheap. *)
+Fixpoint str_eqb (a b : string) : bool :=
+  match a, b with
+  | EmptyString, EmptyString => true
+  | String c a', String d b' => if Ascii.eqb c d then str_eqb a' b' else false
+  | _, _ => false
+  end.
+
 Definition opt_eqb (a b : option string) : bool :=
   match a, b with
   | None, None => true            (* GROUP BY puts NULLs in one group *)
-  | Some x, Some y => String.eqb x y
+  | Some x, Some y => str_eqb x y
   | _, _ => false
   end.
 
 Definition row_eqb (a b : row) : bool :=
-  String.eqb (r_module a) (r_module b) && String.eqb (r_qualname a) (r_qualname b)
-  && String.eqb (r_args a) (r_args b) && opt_eqb (r_ret a) (r_ret b) && opt_eqb (r_yield a) (r_yield b).
+  if str_eqb (r_module a) (r_module b) then
+    if str_eqb (r_qualname a) (r_qualname b) then
+      if str_eqb (r_args a) (r_args b) then
+        if opt_eqb (r_ret a) (r_ret b) then opt_eqb (r_yield a) (r_yield b) else false
+      else false
+    else false
+  else false.
 
-Definition memb (x : row) (l : list row) : bool := existsb (row_eqb x) l.
+Fixpoint memb (x : row) (l : list row) : bool :=
+  match l with
+  | [] => false
+  | y :: r => if row_eqb x y then true else memb x r
+  end.
 
 (* GROUP BY all selected columns = one representative per distinct row *)
 Fixpoint dedup_rows (l : list row) : list row :=
@@ -48,7 +67,11 @@ Fixpoint nodupb (l : list row) : bool :=
   | x :: r => negb (memb x r) && nodupb r
   end.
 
-Definition mem_str (x : string) (l : list string) : bool := existsb (String.eqb x) l.
+Fixpoint mem_str (x : string) (l : list string) : bool :=
+  match l with
+  | [] => false
+  | y :: r => if str_eqb x y then true else mem_str x r
+  end.
 
 Fixpoint dedup_str (l : list string) : list string :=
   match l with
@@ -179,9 +202,10 @@ Definition list_modules (db : list row) : list string :=
   if store_list_modules_drops_falsy then filter nonempty ms else ms.
 
 Definition modules_answerb (db : list row) (ms : list string) : bool :=
+  let lm := list_modules db in       (* computed once (vm_compute shares a let, not a term under a lambda) *)
   store_shape_ok && nodup_strb ms
-  && forallb (fun m => mem_str m (list_modules db)) ms
-  && forallb (fun m => mem_str m ms) (list_modules db).
+  && forallb (fun m => mem_str m lm) ms
+  && forallb (fun m => mem_str m ms) lm.
 
 (* ------------------------------------------------------------------------------------------------ *)
 (* operations                                                                                       *)
